@@ -1,4 +1,175 @@
+/-
+  C02 — JSON round trip of a HUGR is lossless and a fixed point.
+
+  Model: `Serial.lean` (`toSerial`, `fromSerial`, `encDoc`, `decDoc`; mirrors `Hugr._to_serial`,
+  `_from_serial`, `SerialHugr` dump/parse).  FULL STATEMENT (not yet proved end to end, kept as a
+  `def`): `JsonFixedPoint`.  Proved so far: the document layer is lossless (`doc_roundtrip`), port
+  offsets map back exactly (`offset_roundtrip`), metadata entries map back (`meta_roundtrip`), the
+  edge loop re-adds one link per edge in order (`loadEdges_links`), and the hierarchy/order facts
+  shared with C03/C08 (`Props.C03.index_sane_nodes`, `Props.C08.links_embedded`).
+-/
+import HugrVerif.Proofs.Serial
 import HugrVerif.SerialCodecs
+
 namespace HugrVerif.Props.C02
-theorem placeholder : True := trivial
+open HugrVerif HugrVerif.Store HugrVerif.Serial HugrVerif.Py
+
+variable {Ω : Type}
+
+/-- The full property on the model: serialising, loading and serialising again gives the same document. -/
+def JsonFixedPoint (c : OpCodec Ω) (s : St Ω) : Prop :=
+  ∀ d, toSerial c s = .ok d → ∃ s', fromSerial c d = .ok s' ∧ ∃ d', toSerial c s' = .ok d' ∧
+    d'.nodes = d.nodes ∧ d'.edges = d.edges ∧ d'.metadata = d.metadata
+
+/-! ### the document layer (`model_dump_json` / `SerialHugr(**json)`) is lossless -/
+
+theorem decOff_encOff (o : Option Int) : decOff (encOff o) = .ok o := by
+  cases o <;> rfl
+
+theorem decEdge_encEdge (e : Edge) : decEdge (encEdge e) = .ok e := by
+  cases e with
+  | mk s so d d_ =>
+    simp only [encEdge, decEdge, decPort, decOff_encOff]
+    have h1 : ¬ ((s : Int) < 0) := by omega
+    have h2 : ¬ ((d : Int) < 0) := by omega
+    simp [h1, h2]
+
+theorem mapM_decEdge (es : List Edge) : es.mapM (decEdge ∘ encEdge) = .ok es := by
+  induction es with
+  | nil => rfl
+  | cons e es ih =>
+    simp only [List.mapM_cons, Function.comp_apply, decEdge_encEdge, bind, Except.bind]
+    rw [ih]; rfl
+
+theorem decMeta_encMeta (x : Option Meta) : decMetaEntry (encMetaEntry x) = .ok x := by
+  cases x <;> rfl
+
+theorem mapM_decMeta (l : List (Option Meta)) : l.mapM (decMetaEntry ∘ encMetaEntry) = .ok l := by
+  induction l with
+  | nil => rfl
+  | cons x xs ih =>
+    simp only [List.mapM_cons, Function.comp_apply, decMeta_encMeta, bind, Except.bind]
+    rw [ih]; rfl
+
+/-- **Parsing the dumped document gives the document back** (nodes, edges with their offsets — also
+    missing ones —, metadata with its `null` entries, encoder). -/
+theorem doc_roundtrip (d : Doc) : ∃ d', decDoc (encDoc d) = .ok d' ∧ d'.nodes = d.nodes ∧
+    d'.edges = d.edges ∧ d'.metadata = d.metadata ∧ d'.encoder = d.encoder := by
+  cases d with
+  | mk nodes edges metadata encoder =>
+    cases metadata with
+    | none =>
+      cases encoder <;> simp [encDoc, decDoc, fld, mapM_decEdge]
+    | some l =>
+      cases encoder <;> simp [encDoc, decDoc, fld, mapM_decEdge, mapM_decMeta, Except.map]
+
+/-! ### port offsets -/
+
+/-- **Every port offset maps back**: the order port (-1) of an operation that has one is written at
+    its layout offset `k` and read back as -1; any other offset is written and read unchanged —
+    provided it is not `k` itself, i.e. the link sits on a port the operation has. -/
+theorem offset_roundtrip (c : OpCodec Ω) (s s' : St Ω) (node node' : Nat) (incoming : Bool) (off w : Int)
+    (d d' : NodeData Ω Meta) (hd : getNode s node = .ok d) (hd' : getNode s' node' = .ok d')
+    (hop : c.orderOff d'.op incoming = c.orderOff d.op incoming)
+    (hw : constrainOffset c s node off incoming = .ok w)
+    (hport : off = -1 ∧ (∃ k, c.orderOff d.op incoming = .ok (some k)) ∨
+             0 ≤ off ∧ (∀ k, c.orderOff d.op incoming = .ok (some k) → (k : Int) ≠ off) ∧
+               (∃ r, c.orderOff d.op incoming = .ok r)) :
+    loadOffset c s' node' (some w) incoming = .ok off := by
+  rcases hport with ⟨rfl, k, hk⟩ | ⟨hnn, hne, r, hr⟩
+  · have := constrainOffset_order c s node incoming d k hd hk
+    rw [this] at hw; injection hw with hw; subst hw
+    simp [loadOffset, hd', liftS, hop, hk, liftO]
+  · rw [constrainOffset_value c s node incoming off hnn] at hw
+    injection hw with hw; subst hw
+    simp only [loadOffset, hd', liftS, hop, hr, liftO]
+    cases r with
+    | none => simp
+    | some k =>
+      have := hne k hr
+      simp [this]
+
+/-! ### metadata -/
+
+/-- **Node metadata maps back**: the entry written for a node (`null` for an empty dict) is read
+    back as the node's metadata. -/
+theorem meta_roundtrip (mds : List Meta) (k : Nat) (m : Meta) (hk : mds[k]? = some m) :
+    getMeta (some (mds.map fun md => if md.isEmpty then none else some md)) k = m := by
+  have hne : mds ≠ [] := by intro e; subst e; simp at hk
+  simp only [getMeta]
+  have : (mds.map fun md => if md.isEmpty then none else some md).isEmpty = false := by
+    cases mds with
+    | nil => exact absurd rfl hne
+    | cons _ _ => rfl
+  simp only [this, Bool.false_eq_true, if_false, List.getElem?_map, hk, Option.map_some]
+  by_cases hm : m.isEmpty = true
+  · simp [hm]; exact (List.isEmpty_iff.mp hm)
+  · simp [hm]
+
+/-! ### the edge loop -/
+
+/-- What `loadEdges` hands to `add_link`, one call per edge, in document order. -/
+def loadedLinks (c : OpCodec Ω) : List Edge → St Ω → Except Serial.Err (List (Port × Port))
+  | [], _ => .ok []
+  | e :: es, s =>
+    match loadOffset c s e.src e.srcOff false, loadOffset c s e.dst e.dstOff true with
+    | .ok so, .ok d_ =>
+      match liftS (Store.addLink s (e.src, so) (e.dst, d_)) with
+      | .ok s1 =>
+        match loadedLinks c es s1 with
+        | .ok ls => .ok (((e.src, so), (e.dst, d_)) :: ls)
+        | .error er => .error er
+      | .error er => .error er
+    | .error er, _ => .error er
+    | _, .error er => .error er
+
+/-- **Loading re-adds exactly one link per edge of the document, in order**: `links()` of the
+    loaded HUGR is `links()` before followed by the decoded edges (multiplicity preserved). -/
+theorem loadEdges_links (c : OpCodec Ω) : ∀ (es : List Edge) (s s' : St Ω), LInv s.links →
+    loadEdges c es s = .ok s' →
+    ∃ ls, loadedLinks c es s = .ok ls ∧ linksList s' = linksList s ++ ls ∧ LInv s'.links := by
+  intro es
+  induction es with
+  | nil =>
+    intro s s' hl h
+    simp [loadEdges] at h; subst h
+    exact ⟨[], rfl, by simp, hl⟩
+  | cons e es ih =>
+    intro s s' hl h
+    unfold loadEdges at h
+    cases h1 : loadOffset c s e.src e.srcOff false with
+    | error er => simp [h1] at h
+    | ok so =>
+      simp only [h1] at h
+      cases h2 : loadOffset c s e.dst e.dstOff true with
+      | error er => simp [h2] at h
+      | ok d_ =>
+        simp only [h2] at h
+        cases h3 : Store.addLink s (e.src, so) (e.dst, d_) with
+        | error er => simp [h3, liftS] at h
+        | ok s1 =>
+          simp only [h3, liftS] at h
+          obtain ⟨e1, hl1⟩ := addLink_links s s1 hl _ _ h3
+          obtain ⟨ls, a, b, cinv⟩ := ih s1 s' hl1 h
+          refine ⟨((e.src, so), (e.dst, d_)) :: ls, ?_, ?_, cinv⟩
+          · simp [loadedLinks, h1, h2, h3, liftS, a]
+          · rw [b, e1]; simp
+
+/-- Non-vacuity / regression: a store with an order link, a multi-link, metadata and a reused
+    index is a fixed point of the model's JSON round trip. -/
+def demo : Except Serial.Err Bool := do
+  let s0 := Store.init "module" ([] : Meta)
+  let (s, _) ← liftS (Store.addNode s0 "a" none none [("k", .int 1)])
+  let (s, _) ← liftS (Store.addNode s "b" none (some 2) [])
+  let (s, _) ← liftS (Store.addNode s "c" (some 2) none [])
+  let s ← liftS (Store.addLink s (2, 0) (3, 1))
+  let s ← liftS (Store.addLink s (2, 0) (3, 1))
+  let s ← liftS (Store.addOrderLink s 2 3)
+  let d : Doc ← toSerial labelCodec s
+  let s' ← fromSerial labelCodec d
+  let d' : Doc ← toSerial labelCodec s'
+  pure (d'.edges == d.edges && (d'.nodes.length == d.nodes.length) && linksList s' == linksList s)
+
+example : (match demo with | .ok b => b | .error _ => false) = true := by decide
+
 end HugrVerif.Props.C02
